@@ -212,6 +212,67 @@ pub fn explore(opts: &Opts) -> Explored {
             }
         }
     });
+    let mut local = local;
+    // two differently shaped views of one untracked array, each made tracked and used as a broadcast
+    // operand: each view is an array of its own (own gradient of its own dimensions), the template none
+    {
+        let l = &mut local;
+        let pairs: Vec<(usize, Vec<usize>, Vec<usize>)> = vec![
+            (6, vec![2, 3], vec![3, 2]),
+            (6, vec![6], vec![2, 3]),
+            (6, vec![1, 6], vec![3, 2]),
+            (4, vec![2, 2], vec![1, 4]),
+            (4, vec![4], vec![2, 2]),
+            (3, vec![1, 3], vec![3, 1]),
+            (3, vec![3], vec![3, 1]),
+        ];
+        for (n, d1, d2) in &pairs {
+            for template_rank2 in [false, true] {
+                for op in 0..2u8 {
+                    let case = || format!("views {:?} and {:?} of one untracked {}-element array{} as broadcast operands of {}", d1, d2, n, if template_rank2 { " [1,n]" } else { "" }, if op == 0 { "mul" } else { "add" });
+                    if !l.want(&case) {
+                        continue;
+                    }
+                    l.states += 1;
+                    l.transitions += 1;
+                    l.validated += 1;
+                    let tv = vals(*n, 0, var);
+                    let (d1c, d2c, nn) = (d1.clone(), d2.clone(), *n);
+                    let tvc = tv.clone();
+                    let r = run_catch(move || {
+                        let t = arr(&if template_rank2 { vec![1, nn] } else { vec![nn] }, &tvc);
+                        let v1 = t.reshape(d1c.clone()).tracked();
+                        let v2 = t.reshape(d2c.clone()).tracked();
+                        let b1 = arr(&[vec![2], d1c.clone()].concat(), &vals(2 * nn, 1, var));
+                        let b2 = arr(&[vec![3], d2c.clone()].concat(), &vals(3 * nn, 2, var));
+                        let (r1, r2) = if op == 0 { (&b1 * &v1, &b2 * &v2) } else { (&b1 + &v1, &b2 + &v2) };
+                        r1.backward(None);
+                        r2.backward(None);
+                        let g = |a: &Array| a.gradient().as_ref().map(|g| (g.dimensions().to_vec(), g.values().to_vec()));
+                        (g(&v1), g(&v2), g(&t))
+                    });
+                    let expect = |lead: usize, salt: usize| -> Vec<Float> {
+                        let bv = vals(lead * n, salt, var);
+                        (0..*n).map(|j| (0..lead).map(|i| if op == 0 { bv[i * n + j] } else { 1.0 }).sum::<f64>() as Float).collect()
+                    };
+                    match r {
+                        Err(m) => l.violation("views-of-one-array", case(), format!("panicked: {}", m)),
+                        Ok((g1, g2, gt)) => {
+                            l.outcome(digest_str(&format!("{:?}{:?}", g1, g2)));
+                            let (e1, e2) = (expect(2, 1), expect(3, 2));
+                            if g1 != Some((d1.clone(), e1.clone())) {
+                                l.violation("views-of-one-array", case(), format!("the first view holds {:?}, expected {:?} {:?}", g1, d1, e1));
+                            } else if g2 != Some((d2.clone(), e2.clone())) {
+                                l.violation("views-of-one-array", case(), format!("the second view holds {:?}, expected {:?} {:?}", g2, d2, e2));
+                            } else if gt.is_some() {
+                                l.violation("views-of-one-array", case(), format!("the untracked template holds a gradient {:?}", gt));
+                            }
+                        }
+                    }
+                }
+            }
+        }
+    }
     // adjoints that are infinite, or whose sum over the broadcast positions overflows: all terms of
     // one sign, so the summed adjoint is that infinity in every order (and never NaN)
     let mut local = local;
